@@ -15,6 +15,7 @@ import (
 	"fmt"
 	"os"
 	"sort"
+	"strings"
 	"sync"
 	"testing"
 	"time"
@@ -61,21 +62,24 @@ type vgoInst struct {
 }
 
 type vgoHarness struct {
-	mu       sync.Mutex
-	enc      *json.Encoder
-	seq, run int
-	inst     map[string]*vgoInst
-	gidInst  map[int64]string  // goroutine -> instance it acts for
-	gidKey   map[int64]string  // goroutine -> gate key it should park under
-	captured map[string][]byte // announcement key -> real bytes
-	lastCap  map[int64][]byte  // goroutine -> last captured announcement
-	snaps    map[string][]byte
-	snapKeys []string
-	lastSnap []int // shard ids held by the most recent Snapshot / Join
-	merged   map[string]bool
-	outbox   []*vgoMsg
-	leaves   map[string]bool // "i>j" leave notifications delivered
-	wait     time.Duration
+	mu        sync.Mutex
+	enc       *json.Encoder
+	seq, run  int
+	inst      map[string]*vgoInst
+	gidInst   map[int64]string  // goroutine -> instance it acts for
+	gidKey    map[int64]string  // goroutine -> gate key it should park under
+	captured  map[string][]byte // announcement key -> real bytes
+	lastCap   map[int64][]byte  // goroutine -> last captured announcement
+	snaps     map[string][]byte
+	snapKeys  []string
+	nextSplit bool
+	splitRead map[int64]bool // goroutine ids of NotifyMsg calls that are to park after reading the local entry
+	readDone  map[string]chan struct{}
+	lastSnap  []int // shard ids held by the most recent Snapshot / Join
+	merged    map[string]bool
+	outbox    []*vgoMsg
+	leaves    map[string]bool // "i>j" leave notifications delivered
+	wait      time.Duration
 }
 
 type vgoMsg struct {
@@ -114,6 +118,15 @@ func (h *vgoHarness) hook(point string, kv ...any) {
 		h.mu.Unlock()
 		return
 	}
+	if point == "sm.notifymsg.afterRead" && h.splitRead[gid] {
+		// first half of NotifyMsg done (the local entry has been read): park until the Evict command
+		in := h.inst[h.gidInst[gid]]
+		g := &vlfGate{arrived: true, release: make(chan struct{}), kv: []any{gid}}
+		in.parked["rd:"+key] = g
+		h.mu.Unlock()
+		<-g.release
+		return
+	}
 	if point != "sm.register.afterAdd" && point != "sm.unregister.window" {
 		h.mu.Unlock()
 		return
@@ -134,6 +147,10 @@ func (h *vgoHarness) spawn(i, key string, fn func()) (parked bool, done chan str
 		gid := vlfGID()
 		h.mu.Lock()
 		h.gidInst[gid], h.gidKey[gid] = i, key
+		if h.nextSplit {
+			h.splitRead[gid] = true
+			h.nextSplit = false
+		}
 		h.mu.Unlock()
 		close(started)
 		defer close(done)
@@ -155,8 +172,9 @@ func (h *vgoHarness) spawn(i, key string, fn func()) (parked bool, done chan str
 		}
 		h.mu.Lock()
 		_, p := h.inst[i].parked[key]
+		_, p2 := h.inst[i].parked["rd:"+key]
 		h.mu.Unlock()
-		if p {
+		if p || p2 {
 			return true, done
 		}
 		time.Sleep(50 * time.Microsecond)
@@ -177,6 +195,7 @@ func (h *vgoHarness) reset(sc *vgoSched) {
 	h.gidInst, h.gidKey = map[int64]string{}, map[int64]string{}
 	h.captured, h.lastCap, h.snaps = map[string][]byte{}, map[int64][]byte{}, map[string][]byte{}
 	h.snapKeys, h.merged, h.outbox, h.leaves = nil, map[string]bool{}, nil, map[string]bool{}
+	h.splitRead, h.readDone = map[int64]bool{}, map[string]chan struct{}{}
 	net := &memberlist.MockNetwork{}
 	addrs := map[string]string{}
 	for _, n := range sc.Inst {
@@ -393,6 +412,68 @@ func (h *vgoHarness) exec(c vgoCmd) bool {
 			}
 		}
 		return true
+	case "Read":
+		// first half of NotifyMsg for a register announcement: runs up to the hook after the local entry was read
+		h.mu.Lock()
+		data := h.captured[annKey(c.I, c.Type, c.Sh, c.Ts)]
+		for _, m := range h.outbox {
+			if m.key == annKey(c.I, c.Type, c.Sh, c.Ts) {
+				m.delivered[c.J] = true
+			}
+		}
+		h.mu.Unlock()
+		to := h.inst[c.J]
+		if data == nil || to == nil {
+			return false
+		}
+		if to.left {
+			return true
+		}
+		key := fmt.Sprintf("unreg/%d", c.Sh)
+		h.mu.Lock()
+		h.nextSplit = true
+		h.mu.Unlock()
+		parked, done := h.spawn(c.J, key, func() { to.sm.delegate.NotifyMsg(data) })
+		h.mu.Lock()
+		h.readDone[c.J+"/"+key] = done
+		h.mu.Unlock()
+		return parked
+	case "Evict":
+		to := h.inst[c.J]
+		if to == nil {
+			return false
+		}
+		if to.left {
+			return true
+		}
+		key := fmt.Sprintf("unreg/%d", c.Sh)
+		h.mu.Lock()
+		g := to.parked["rd:"+key]
+		delete(to.parked, "rd:"+key)
+		done := h.readDone[c.J+"/"+key]
+		delete(h.readDone, c.J+"/"+key)
+		h.mu.Unlock()
+		if g == nil || done == nil {
+			return false
+		}
+		close(g.release)
+		// second half: it either finishes (nothing to evict) or parks in UnregisterShard's window (an eviction to be announced)
+		deadline := time.Now().Add(h.wait)
+		for time.Now().Before(deadline) {
+			select {
+			case <-done:
+				return true
+			default:
+			}
+			h.mu.Lock()
+			_, p := to.parked[key]
+			h.mu.Unlock()
+			if p {
+				return true
+			}
+			time.Sleep(50 * time.Microsecond)
+		}
+		return false
 	case "Snapshot":
 		h.mu.Lock()
 		k := fmt.Sprintf("%s>%s/%d", c.I, c.J, c.Val)
@@ -488,6 +569,18 @@ func (h *vgoHarness) runSchedule(sc *vgoSched) {
 			h.mu.Unlock()
 			sort.Strings(keys)
 			for _, k := range keys {
+				if strings.HasPrefix(k, "rd:") {
+					// a NotifyMsg still parked after its read: let it act on its snapshot
+					var sh int
+					fmt.Sscanf(k, "rd:unreg/%d", &sh)
+					c := vgoCmd{A: "Evict", J: n, Sh: sh, Type: "register"}
+					ok := h.exec(c)
+					h.mu.Lock()
+					h.emit(map[string]interface{}{"ev": "Step", "a": c.A, "i": "", "j": c.J, "sh": c.Sh, "type": c.Type, "ts": 0, "keep": false, "ok": ok, "flush": true, "val": 0, "snap": h.snapNow(), "view": h.view()})
+					h.mu.Unlock()
+					progressed = true
+					continue
+				}
 				var sh int
 				typ := "register"
 				if _, err := fmt.Sscanf(k, "reg/%d", &sh); err != nil {
